@@ -57,14 +57,14 @@ Qed.
 Lemma delete_filtered_ok f store : is_ok (delete_filtered true f store).
 Proof.
   unfold delete_filtered.
-  destruct (f_sel f), (f_elems f); try apply ok_ok.
+  destruct (eff_sel f), (eff_elems f); try apply ok_ok.
   - apply map_res_ok. intros. ok_all.
   - apply bind_ok; [apply map_res_ok; intros; ok_all | intros; apply ok_ok].
 Qed.
 
 Lemma copy_selected_ok f k0 store : is_ok (copy_selected true f k0 store).
 Proof.
-  unfold copy_selected. destruct (f_sel f); [|apply ok_ok].
+  unfold copy_selected. destruct (eff_sel f); [|apply ok_ok].
   apply map_res_ok. intros. ok_all.
 Qed.
 #[local] Hint Resolve delete_filtered_ok copy_selected_ok : okdb.
